@@ -1,5 +1,5 @@
 """Helpers shared by the streaming-detector property modules."""
-import math, warnings
+import math, warnings, contextlib, sys, types
 import numpy as np
 from . import coqgen as G
 
@@ -78,3 +78,25 @@ def feq(a, b):
     if math.isnan(a) or math.isnan(b):
         return math.isnan(a) and math.isnan(b)
     return a == b and math.copysign(1, a) == math.copysign(1, b)
+
+
+@contextlib.contextmanager
+def rebound(source, attr, replacement, prefixes=("menelaus",)):
+    """For the duration: `source.attr` is `replacement`, and so is every module-level name of the library under test
+    that is bound to the original object - whatever that name is and however it was imported (`import x`, `import x as
+    y`, `from x import f`, `from x import f as g` all see the replacement).  Everything is restored on exit."""
+    orig = getattr(source, attr)
+    changed = [(source, attr, orig)]
+    setattr(source, attr, replacement)
+    try:
+        for name, m in list(sys.modules.items()):
+            if m is None or not any(name == p or name.startswith(p + ".") for p in prefixes):
+                continue
+            for k, v in list(vars(m).items()):
+                if v is orig and not (m is source and k == attr):
+                    changed.append((m, k, orig))
+                    setattr(m, k, replacement)
+        yield orig
+    finally:
+        for m, k, v in reversed(changed):
+            setattr(m, k, v)
